@@ -213,3 +213,11 @@ PROPS['C19']['quick'] = [('corrupt:general', 8000)]
 PROPS['C06']['quick'] = [('life:general', 4000), ('life:fsds', 1500), ('life:enum', 60, {'SIM_ENUM': '1'})]
 PROPS['C06']['thorough'] = [('life:general', 200000), ('life:fsds', 60000), ('life:enum', 4000, {'SIM_ENUM': '1'})]
 PROPS['C06']['rule'] += '; life:fsds runs the same workload with the real FileSystemDataStore over simos as DataStore (os-call faults) next to an atomic MetaStore'
+
+# C17/C18 also over S-merge (merge:content truth-checks every file a merge publishes; its row-group
+# limits sit near the source block sizes, so one partition regularly yields several recombined blocks
+# in one output file — the layout w8-C17 needs, which S-content reached in 1 of 1 600 runs).
+for _p in ('C17', 'C18'):
+    PROPS[_p]['quick'] = [('content:general', 1600), ('merge:content', 2000)]
+    PROPS[_p]['thorough'] = [('content:general', 60000), ('merge:content', 60000)]
+    PROPS[_p]['rule'] += '; plus every file published during S-merge histories (merge:content: fault-free merge rounds with row-group limits near the source block sizes)'
